@@ -91,40 +91,59 @@ def check_next_frame(run, cx, cfg):
         vals = [(k, e) for k, e in evs if rp(e) == BT + 'values' and e['args'][0] == ('ref', self_loc(fi))]
         # third idiom: values().min().map_or(true, |&m| m > fr) -- no other output, or even the slowest other one is ahead
         mins = [(k, e) for k, e in evs if is_call(e, ITER, 'min') and vals and e['args'][0] == ('ret', vals[0][0])]
-        mo = [(k, e) for k, e in evs if rp(e) == 'core::option::Option::<T>::map_or' and mins and e['args'][0] == ('ret', mins[0][0])]
-        via_min = not anys and len(mins) == 1 and len(mo) == 1 and mo[0][1]['args'][1] == ('bool', True)
+        via_min = not anys and len(mins) == 1
+        least_min = None
         if via_min:
-            anys = [(mo[0][0], dict(mo[0][1], name='all', args=[None, mo[0][1]['args'][2]]))]
-        if len(anys) != 1 or len(vals) != 1 or vals[0][0] < rem[0][0]:
+            # (map_or is seen through: a branch on the variant of the minimum, then the comparison of its payload)
+            cfm = dict(cond_facts(p))
+            mv = option_variant(cfm, ('ret', mins[0][0]))
+            if mv == 0:
+                least_min = True                      # no other output at all
+            elif mv == 1:
+                pay = ('field', ('variant', ('ret', mins[0][0]), 1), 0)
+                for c, v in cond_facts(p):
+                    if v[0] != 'bool' or c[0] != 'op':
+                        continue
+                    x, y = strip_epoch(c[2]), strip_epoch(c[3])
+                    isp = lambda t: t == ('deref', pay) or t == pay
+                    if c[1] == 'Gt' and isp(x) and y == FR or c[1] == 'Lt' and x == FR and isp(y):
+                        least_min = v[1]              # min_other > frames_read
+                    elif c[1] == 'Le' and isp(x) and y == FR or c[1] == 'Ge' and x == FR and isp(y):
+                        least_min = not v[1]          # !(min_other <= frames_read)
+            if least_min is None or len(vals) != 1 or vals[0][0] < rem[0][0]:
+                bad = 'least-reader test through values().min(): the path is not decided by `no other output, or the smallest other offset > frames_read`: [%s]' % describe_path(p)[:300]
+                break
+        elif len(anys) != 1 or len(vals) != 1 or vals[0][0] < rem[0][0]:
             bad = ('least-reader test must scan frames_read.values() with any/all after this output\'s own offset was removed (a lone output must count as the least reader, '
                    'otherwise its backlog grows without bound)')
             break
-        is_all = anys[0][1]['name'] == 'all'       # (the min idiom reads like all(): true exactly when every other offset is greater)
-        clo = anys[0][1]['args'][1]
-        if not (clo[0] == 'agg' and clo[1][0] == 'closure'):
-            bad = 'least-reader predicate is not a closure'
-            break
-        cps = returning(cx.closure_paths(clo, p, [('ref', (('L', 'x', 0), ()))]))
-        okc = False
-        if len(cps) == 1:
-            r = cps[0]['ret']
-            want = ('Gt', 'Lt') if is_all else ('Le', 'Ge')      # all(other > fr)  |  any(other <= fr)
-            if r[0] == 'op' and r[1] in want:
-                a, b = (r[2], r[3]) if r[1] == want[0] else (r[3], r[2])
-                okc = (b == FR) and a != FR
-        if not okc:
-            bad = 'least-reader predicate must be `other_frames_read <= frames_read` under any() (or `>` under all()): two outputs tied at the front must not both pop; is %s' % (
-                short(cps[0]['ret']) if cps else '?')
-            break
-        least = None
-        for c, v in cond_facts(p):
-            truth = None
-            if c == ('ret', anys[0][0]) and v[0] == 'bool':
-                truth = v[1]
-            if c == ('un', 'Not', ('ret', anys[0][0])) and v[0] == 'bool':
-                truth = not v[1]
-            if truth is not None:
-                least = truth if is_all else (not truth)
+        least = least_min
+        if not via_min:
+            is_all = anys[0][1]['name'] == 'all'
+            clo = anys[0][1]['args'][1]
+            if not (clo[0] == 'agg' and clo[1][0] == 'closure'):
+                bad = 'least-reader predicate is not a closure'
+                break
+            cps = returning(cx.closure_paths(clo, p, [('ref', (('L', 'x', 0), ()))]))
+            okc = False
+            if len(cps) == 1:
+                r = cps[0]['ret']
+                want = ('Gt', 'Lt') if is_all else ('Le', 'Ge')      # all(other > fr)  |  any(other <= fr)
+                if r[0] == 'op' and r[1] in want:
+                    a, b = (r[2], r[3]) if r[1] == want[0] else (r[3], r[2])
+                    okc = (b == FR) and a != FR
+            if not okc:
+                bad = 'least-reader predicate must be `other_frames_read <= frames_read` under any() (or `>` under all()): two outputs tied at the front must not both pop; is %s' % (
+                    short(cps[0]['ret']) if cps else '?')
+                break
+            for c, v in cond_facts(p):
+                truth = None
+                if c == ('ret', anys[0][0]) and v[0] == 'bool':
+                    truth = v[1]
+                if c == ('un', 'Not', ('ret', anys[0][0])) and v[0] == 'bool':
+                    truth = not v[1]
+                if truth is not None:
+                    least = truth if is_all else (not truth)
         pops = [(k, e) for k, e in evs if rp(e) == VD + 'pop_front' and e['args'][0] == ('ref', self_loc(bi))]
         if least is None:
             bad = 'path not decided by the least-reader test'
@@ -253,13 +272,18 @@ def check_misc(run, cx, cfg, only=None):
             if len(rem) != 1 or evs[0][0] != rem[0][0]:
                 bad = 'must first remove the dropped output\'s offset'
                 break
-            if len(folds) != 1 or len(lens) != 1 or len(vals) != 1 or folds[0][1]['args'][0] != ('ret', vals[0][0]) or folds[0][1]['args'][1] != ('ret', lens[0][0]) \
+            # values().fold(..) or values().copied().fold(..)
+            fsrc = folds[0][1]['args'][0] if len(folds) == 1 else None
+            if fsrc is not None and fsrc[0] == 'ret' and p['events'][fsrc[1]]['kind'] == 'call' and p['events'][fsrc[1]]['name'] in ('copied', 'cloned') \
+                    and p['events'][fsrc[1]].get('trait') == ITER:
+                fsrc = p['events'][fsrc[1]]['args'][0]
+            if len(folds) != 1 or len(lens) != 1 or len(vals) != 1 or fsrc != ('ret', vals[0][0]) or folds[0][1]['args'][1] != ('ret', lens[0][0]) \
                     or vals[0][0] < rem[0][0]:
                 bad = 'least remaining offset must be values().fold(buffer.len(), min) computed after the removal'
                 break
             clo = folds[0][1]['args'][2]
             cps = returning(cx.closure_paths(clo, p, [('acc',), ('ref', (('L', 'x', 0), ()))])) if clo[0] == 'agg' else []
-            okm = False
+            okm = clo[0] == 'fnitem' and clo[1] in ('core::cmp::Ord::min', 'core::cmp::min')      # the function itself as the folding step
             if len(cps) == 1:
                 ce = [e for k, e in call_events(cps[0])]
                 # core::cmp::min(a, b)  or the method spelling a.min(b) (Ord::min)
@@ -274,7 +298,8 @@ def check_misc(run, cx, cfg, only=None):
             lo, hi = int_constraint(p, LEAST)
             pops = [(k, e) for k, e in evs if rp(e) == VD + 'pop_front']
             if hi == 0:
-                if pops or len(evs) != 4:
+                touched = [rp(e) for k, e in evs if k > folds[0][0] and rp(e).startswith((VD, BT)) and not rp(e).endswith(('::len', '::is_empty', '::values', '::iter', '::get', '::contains_key'))]
+                if pops or touched:
                     bad = 'with least == 0 nothing may be trimmed'
                 kinds.add('nothing')
             elif lo >= 1 or (lo == 0 and hi == float('inf')):
